@@ -8,7 +8,7 @@ from . import common
 PID = "C05"
 RULE = ("script = 1-5 pieces (corpus single statements that analyse alone, plus generated statements with ';' inside literals, quoted identifiers and comments) "
         "joined by separator variants (; ;; ;\\n, line/block comments containing ';', empty and comment-only statements, leading/trailing noise); tsql no-semicolon mode "
-        "with newline/;/comment separators; statements() must equal the normalised pieces in order and the script's tables/edges/column pairs must equal "
+        "with newline/;/comment separators; nested block comments and literals ending in a backslash (tsql, postgres); statements() must equal the normalised pieces in order and the script's tables/edges/column pairs must equal "
         "SQLLineageHolder.of over the pieces analysed alone; non-trivial = distinct script that analysed without error")
 
 SEPS = [";", ";\n", " ;\n", ";;", ";\n;\n", " ; -- c;x\n", ";\n/* a;b */\n", ";\n-- only a comment; really\n;\n", " ;\n/* block ; only */ ;\n", ";\n\n\n"]
@@ -22,6 +22,12 @@ TRICKY = {
     "tsql": ["insert into t1 select 'a;b' as c1 from t2", "select [x;y] from t5", "select c1 into t3 from t4", "update t1 set c1 = t2.c1 from t2 where t1.k = t2.k"],
 }
 TSQL_SEPS = ["\n", "\n\n", ";\n", " ;\n", "\n-- c;x\n", "\n/* a;b */\n", "\nGO\n", "\ngo\n\n", "\nGO\n-- next batch\n"]  # GO ends a batch
+
+
+# where the dialect's own lexer and sqlparse's disagree: block comments nest under tsql / postgres, and a backslash does not escape the closing quote there
+NESTED_SEPS = ["\n/* outer /* inner; */ ; still the outer comment */\n", "\n/* off; /* insert into old1 select * from old2; */ see ticket; */\n"]
+BACKSLASH_PIECES = ["insert into t14 select 'C:\\tmp\\' as p, ';' as q, c1 from t15", "insert into t16 select c1 from t17 where c2 = 'a\\' and c3 = ';b'"]
+TRAP_DIALECTS = ("postgres", "tsql")
 
 
 def pieces_for(dialect):
@@ -48,14 +54,47 @@ def workload(tier, rnd):
         ps = [rnd.choice(pool[:len(TRICKY.get(d, TRICKY["ansi"]))] if rnd.random() < 0.3 else pool) for _ in range(k)]
         seps = [rnd.choice(PREFIX)] + [rnd.choice(SEPS) for _ in range(k - 1)] + [rnd.choice(SUFFIX)]
         jobs.append({"pieces": ps, "seps": seps, "dialect": d, "mode": "semicolon", "order": _order(len(jobs))})
+    # lexer traps with semicolons (postgres, tsql): the statement splitter is sqlparse's, which knows neither nested comments nor quotes closed after a backslash
+    for i in range(n // 45):
+        d = TRAP_DIALECTS[i % 2]
+        k = rnd.choice([2, 3])
+        ps = [rnd.choice(pcs[d]) for _ in range(k)]
+        seps = [""] + [rnd.choice(SEPS) for _ in range(k - 1)] + [rnd.choice(SUFFIX)]
+        if i % 4 < 2:
+            j = rnd.randrange(1, k)
+            seps[j] = ";" + rnd.choice(NESTED_SEPS)
+            trap = "nested_comment"
+        else:
+            ps[rnd.randrange(k)] = rnd.choice(BACKSLASH_PIECES)
+            trap = "backslash_literal"
+        jobs.append({"pieces": ps, "seps": seps, "dialect": d, "mode": "semicolon", "trap": trap, "order": _order(len(jobs))})
     # tsql without semicolons
     tp = pcs["tsql"]
     for i in range(n // 9):
         k = rnd.choice([1, 2, 3, 4])
         ps = [rnd.choice(tp) for _ in range(k)]
         seps = [rnd.choice(["", "\n", "-- lead\n", "GO\n"])] + [rnd.choice(TSQL_SEPS) for _ in range(k - 1)] + [rnd.choice(["", "\n", ";", "\n-- tail", "\nGO", "\nGO\n"])]
-        jobs.append({"pieces": ps, "seps": seps, "dialect": "tsql", "config": {"TSQL_NO_SEMICOLON": True}, "mode": "tsql_no_semicolon", "order": _order(len(jobs))})
+        trap = None
+        if i % 5 == 0 and k > 1:
+            seps[rnd.randrange(1, k)] = rnd.choice(NESTED_SEPS)
+            trap = "nested_comment"
+        elif i % 5 == 1:
+            ps[rnd.randrange(k)] = rnd.choice(BACKSLASH_PIECES)
+            trap = "backslash_literal"
+        jobs.append({"pieces": ps, "seps": seps, "dialect": "tsql", "config": {"TSQL_NO_SEMICOLON": True}, "mode": "tsql_no_semicolon", "order": _order(len(jobs)), **({"trap": trap} if trap else {})})
     return jobs
+
+
+def trap_kf(job, res):
+    """KF-31b: with semicolons the script is cut by sqlparse's lexer, which does not nest block comments and lets a backslash escape the closing quote;
+    under a dialect whose own lexer reads the script differently (sqlfluff accepts the whole text) a semicolon inside such a comment / after such a
+    literal splits. Only this mode, these two mechanisms and 'cut in the wrong place' (invalid syntax or another statement list) are recognised."""
+    if job.get("trap") and job["mode"] == "semicolon" and job["dialect"] in TRAP_DIALECTS:
+        if res["outcome"] == "InvalidSyntaxException" and res.get("batch_accepted_by_sqlfluff") is True:
+            return "KF-31b"
+        if res["outcome"] == "ok" and len(res.get("statements") or []) > len(job["pieces"]):
+            return "KF-31b"
+    return None
 
 
 def _order(i):
@@ -69,16 +108,22 @@ def run(tier):
     run_ = evidence.Run(PID, tier, rule=RULE)
     rnd = common.rng("c05")
     jobs = workload(tier, rnd)
-    for k in ("statement_lists_compared", "combinations_compared", "tsql_mode_scripts"):
+    for k in ("statement_lists_compared", "combinations_compared", "tsql_mode_scripts", "lexer_trap_scripts_tsql_no_semicolon"):
         run_.need(k)
     with Pool() as pool:
         res = pool.map("vlib.scripts:run_script", jobs, timeout=300)
     skipped = 0
     modes = {}
     for j, (st, r) in zip(jobs, res):
-        b = {"pieces": j["pieces"], "seps": j["seps"], "dialect": j["dialect"], "config": j.get("config"), "order": j.get("order")}
+        b = {"pieces": j["pieces"], "seps": j["seps"], "dialect": j["dialect"], "config": j.get("config"), "order": j.get("order"), **({"trap": j["trap"]} if j.get("trap") else {})}
         if not run_.pool_status(st, r, b):
             run_.case()
+            continue
+        if "skipped" in r and r.get("pieces_accepted_by_sqlfluff") and set(r["skipped_pieces"]) <= set(BACKSLASH_PIECES):
+            # a lexer-trap statement the dialect's parser accepts is not analysable even alone
+            run_.case(evidence.sha((j["pieces"], j["dialect"], j.get("config"))), nontrivial=True)
+            run_.judge(b, "statement_accepted_by_the_dialect_is_not_analysed_as_one_statement", {"alone": r["skipped"]},
+                       kf_id="KF-31b" if j["mode"] == "semicolon" and j["dialect"] in TRAP_DIALECTS and j.get("trap") == "backslash_literal" else None)
             continue
         if "skipped" in r:
             skipped += 1
@@ -93,14 +138,16 @@ def run(tier):
             continue
         if not ok:
             # every piece analyses alone, so the assembled script must analyse too
-            run_.judge(dict(b, script=r["script"]), "script_raises_though_pieces_do_not", {"outcome": r["outcome"], "message": r.get("message")}, kf_id=None)
+            run_.judge(dict(b, script=r["script"]), "script_raises_though_pieces_do_not", {"outcome": r["outcome"], "message": r.get("message")}, kf_id=trap_kf(j, r))
             continue
+        if j.get("trap"):
+            run_.observe("lexer_trap_scripts_" + j["mode"])
         modes[j["mode"]] = modes.get(j["mode"], 0) + 1
         if j["mode"] == "tsql_no_semicolon":
             run_.observe("tsql_mode_scripts")
         run_.observe("statement_lists_compared")
         if r["statements"] != r["expected_statements"] or r["n_analyzed"] != len(j["pieces"]):
-            run_.judge(dict(b, script=r["script"]), "statements_differ", {"reported": r["statements"], "expected": r["expected_statements"], "analyzed": r["n_analyzed"]}, kf_id=None)
+            run_.judge(dict(b, script=r["script"]), "statements_differ", {"reported": r["statements"], "expected": r["expected_statements"], "analyzed": r["n_analyzed"]}, kf_id=trap_kf(j, r))
             continue
         run_.observe("combinations_compared")
         if r["combined"] != r["script_result"]:
@@ -117,7 +164,7 @@ def replay(path):
     rep = common.load_replay(path)
     c = rep["case"]
     with Pool(1) as pool:
-        st, r = pool.call(0, "vlib.scripts:run_script", {"pieces": c["pieces"], "seps": c["seps"], "dialect": c["dialect"], "config": c.get("config"), "order": c.get("order")}, timeout=300)
+        st, r = pool.call(0, "vlib.scripts:run_script", {"pieces": c["pieces"], "seps": c["seps"], "dialect": c["dialect"], "config": c.get("config"), "order": c.get("order"), "trap": c.get("trap")}, timeout=300)
     print(st, r)
     bad = st == "ok" and "skipped" not in r and (r["outcome"] != "ok" or r["statements"] != r["expected_statements"] or r["combined"] != r["script_result"])
     if bad:
